@@ -621,11 +621,27 @@ pub fn after_window(w: &mut World, tracked: Option<Option<usize>>) {
         if w.fee_ok(sum, a) {
             w.sets[i].ever_funded = true;
             if w.sets[i].read_done_ms.is_some() && w.sets[i].early_snap.is_none() && !w.sets[i].paid {
-                let m = held.iter().map(|k| w.htlcs[*k].spec.cltv_expiry).min().unwrap();
+                let mut m = held.iter().map(|k| w.htlcs[*k].spec.cltv_expiry).min().unwrap();
+                // two parts of this set were delivered at the same instant in this window: the
+                // lifecycle may have taken its snapshot between them, i.e. without the one handled
+                // later, if the set was funded without it. Use the loosest possible snapshot.
+                if let Some((pu, pv)) = w.window_pair {
+                    for x in [pu, pv] {
+                        if !held.contains(&x) {
+                            continue;
+                        }
+                        let rest: Vec<usize> = held.iter().copied().filter(|k| *k != x).collect();
+                        let rsum: u128 = rest.iter().map(|k| w.htlcs[*k].spec.amount_msat as u128).sum();
+                        if !rest.is_empty() && w.fee_ok(rsum, a) {
+                            m = m.max(rest.iter().map(|k| w.htlcs[*k].spec.cltv_expiry).min().unwrap());
+                        }
+                    }
+                }
                 w.sets[i].early_snap = Some((m, w.told_height));
             }
         }
     }
+    w.window_pair = None;
 }
 
 /// Non-trampoline HTLC delivered at the previous step must be answered by now, with no
